@@ -4,6 +4,7 @@ import (
 	"fmt"
 	"go/token"
 	"go/types"
+	"strings"
 
 	"golang.org/x/tools/go/ssa"
 )
@@ -377,6 +378,21 @@ func (e *Exec) refEq(x, y Value) T {
 	if nx.Const && nx.V == 1 {
 		return ny
 	}
+	// An object first reached through a havocked pointer or interface (callee
+	// frame, loop cut, callee result) may or may not be one of the objects
+	// already known: identity with it is decided by a symbolic address, never
+	// assumed false. Distinct objects of the unit's pre-state are separate.
+	havocked := func(o *Object) bool {
+		return o != nil && (strings.Contains(o.Name, "~c") || strings.Contains(o.Name, "~L") || strings.Contains(o.Name, "!c"))
+	}
+	addrOf := func(o *Object) T {
+		if a, ok := e.objAddr[o]; ok {
+			return a
+		}
+		a := e.fresh("addr", BV64)
+		e.objAddr[o] = a
+		return a
+	}
 	px, okx := x.(VPtr)
 	py, oky := y.(VPtr)
 	if okx && oky {
@@ -388,7 +404,11 @@ func (e *Exec) refEq(x, y Value) T {
 			ay, hy := e.objAddr[py.Loc.Obj]
 			if hx && hy {
 				same = Eq(ax, ay)
+			} else if havocked(px.Loc.Obj) || havocked(py.Loc.Obj) {
+				same = Eq(addrOf(px.Loc.Obj), addrOf(py.Loc.Obj))
 			}
+		} else if px.Loc != nil && py.Loc != nil && (havocked(px.Loc.Obj) || havocked(py.Loc.Obj)) {
+			same = e.fresh("ptreq", BoolSort)
 		}
 		return Or(And(nx, ny), And(Not(nx), Not(ny), same))
 	}
@@ -398,6 +418,9 @@ func (e *Exec) refEq(x, y Value) T {
 		if ix.Obj != nil && iy.Obj != nil {
 			if ix.Obj == iy.Obj {
 				return Eq(nx, ny)
+			}
+			if havocked(ix.Obj) || havocked(iy.Obj) {
+				return Or(And(nx, ny), And(Not(nx), Not(ny), Eq(addrOf(ix.Obj), addrOf(iy.Obj))))
 			}
 			return And(nx, ny)
 		}
